@@ -14,7 +14,9 @@ Theorem C03_source_tie :
   (forall a b, src_strict_append a b = (a =? b)) /\
   src_empty_read = EMPTY /\ src_empty_written = EMPTY /\
   src_index_format = [37; 115; 91; 37; 100; 93] /\
-  src_qs_separators = [38; 59] /\ src_qs_equals = 61 /\ src_qs_plus = (43, 32).
+  src_qs_separators = [38; 59] /\ src_qs_equals = 61 /\ src_qs_plus = (43, 32) /\
+  src_header_date_format = [37; 115; 44; 32; 37; 48; 50; 100; 32; 37; 115; 32; 37; 48; 52; 100; 32; 37; 48; 50; 100; 58; 37; 48; 50; 100; 58; 37; 48; 50; 100; 32; 71; 77; 84] /\   (* %s, %02d %s %04d %02d:%02d:%02d GMT *)
+  src_weekday = WEEKDAY /\ src_month = MONTH.
 Proof. exact source_tie. Qed.
 
 (** non-vacuity: the generated _s2cmi is the documented one (doctest of the source) *)
